@@ -197,7 +197,10 @@ def bnd_concurrent(tier, seed):
     for rd in range(rounds):
         n = rnd.choice((2, 5, 12, 30))
         proto, conn, log = selected_protocol()
-        proto._settings.timeouts.t3 = 1.0
+        # T3 must not expire for a reply that is merely slow on a loaded machine (that would be the library's documented
+        # timeout, not a routing error): the limit follows the load; only the deliberately missing replies run into it
+        t3 = 1.5 * H.scale()
+        proto._settings.timeouts.t3 = t3
         try:
             sent = []
             lock = threading.Lock()
@@ -218,6 +221,7 @@ def bnd_concurrent(tier, seed):
             for t in threads:
                 t.start()
             H.wait_until(lambda: len(sent) == n, 5.0)
+            t_sent = time.time()
             with lock:
                 order = list(sent)
             systems = [s for s, _ in order]
@@ -237,8 +241,11 @@ def bnd_concurrent(tier, seed):
                     continue
                 # the reply echoes the request body so that a mix-up is visible in the payload as well
                 conn.feed(H.frame(0, s, 1, 4, False, body))
+            fed_in_time = time.time() - t_sent < t3 * 0.6      # all replies were on their way well before any T3 could expire
             for t in threads:
-                t.join(4.0 * H.scale())
+                t.join(t3 + 4.0 * H.scale())
+            if not fed_in_time:
+                continue        # this round says nothing about routing: replies may legitimately have met expired requests
             body_of = dict(sent)
             sys_of = {}
             for s, b in sent:
